@@ -3,7 +3,7 @@
 from vx.unit import Unit
 from vx.extract import C
 
-PROPS = ['C17', 'C01']
+PROPS = ['C17', 'C18', 'C01']
 HEADER = '#![feature(allocator_api)]\nuse vstd::prelude::*;\nuse vstd::std_specs::iter::IteratorSpec;\nuse std::collections::VecDeque;\nverus! {\n'
 FOOTER = '\n} // verus!\nfn main() {}\n'
 
@@ -15,7 +15,7 @@ INVS = {'distinct': 'ids_distinct(js)', 'sorted': 'ids_sorted(js)'}
 
 def build(repo, findings, inv='distinct'):
     u = Unit('U18', 'job table: distinct ids, sweep/poll lose or duplicate nothing, wait_all awaits every job [table invariant: %s]' % inv,
-             repo, ['C17'], safety_props=['C01', 'C17'])
+             repo, ['C17', 'C18'], safety_props=['C01', 'C17'])
     src = u.source('brush-core/src/jobs.rs')
     u.raw(HEADER)
     u.add(src.item(r'^pub enum JobAnnotation ', 'JobAnnotation').r1(keep_derive=()))
@@ -86,7 +86,7 @@ def build(repo, findings, inv='distinct'):
     im.sig(fn, ret='completed_jobs', ensures=[
         C('C17 sweep-loses-nothing', 'completed_jobs@.len() + final(self).jobs@.len() == old(self).jobs@.len()'),
         C('C17 sweep-removes-only-finished', 'forall|i: int| 0 <= i < completed_jobs@.len() ==> (#[trigger] completed_jobs@[i]).tasks@.len() == 0'),
-        C('C17 sweep-keeps-all-unfinished', 'forall|i: int| 0 <= i < final(self).jobs@.len() ==> (#[trigger] final(self).jobs@[i]).tasks@.len() != 0'),
+        C('C17,C18 sweep-keeps-all-unfinished-no-finished-job-stays-in-the-table', 'forall|i: int| 0 <= i < final(self).jobs@.len() ==> (#[trigger] final(self).jobs@[i]).tasks@.len() != 0'),
         C('C17 sweep-keeps-each-job-once', 'exists|f: Seq<int>| is_inj_by(final(self).jobs@, old(self).jobs@, f)'),
         C('C17 sweep-keeps-only-old-jobs', 'forall|i: int| 0 <= i < final(self).jobs@.len() ==> old(self).jobs@.contains(#[trigger] final(self).jobs@[i])'),
         C('C17 sweep-keeps-ids-distinct', 'table_inv(old(self).jobs@) ==> table_inv(final(self).jobs@)'),
@@ -95,7 +95,7 @@ def build(repo, findings, inv='distinct'):
     im.before(r'^\s*let mut i = 0;', 'let ghost mut fmap: Seq<int> = Seq::new(self.jobs@.len(), |k: int| k);', fn_name=fn)
     im.loop(0, fn_name=fn, invariant=[
         C('aux', 'i <= self.jobs@.len()'),
-        C('C17 sweep-count', 'completed_jobs@.len() + self.jobs@.len() == old(self).jobs@.len()'),
+        C('C17,C18 sweep-count', 'completed_jobs@.len() + self.jobs@.len() == old(self).jobs@.len()'),
         C('aux', 'forall|k: int| 0 <= k < completed_jobs@.len() ==> (#[trigger] completed_jobs@[k]).tasks@.len() == 0'),
         C('aux', 'forall|k: int| 0 <= k < i ==> (#[trigger] self.jobs@[k]).tasks@.len() != 0'),
         C('C17 sweep-each-kept-job-is-an-old-job-once', 'is_inj_by(self.jobs@, old(self).jobs@, fmap)'),
